@@ -24,7 +24,7 @@ def run(ctx):
            for v in "rbq" for f in range(8)]
     fam = fam + ([("ep-slice", "Families_pos.cfg", {"VERIF_FAMILY": "ep", "VERIF_VARIANT": "rbq"[(ctx.seed + 1) % 3], "VERIF_FILE": (ctx.seed * 3 + 2) % 8,
                                                     "VERIF_SLICE": (ctx.seed + 3) % 16, "VERIF_SLICES": 16})] if ctx.tier == "quick" else
-                 [("ep-%s-%d" % (v, f), "Families_pos.cfg", {"VERIF_FAMILY": "ep", "VERIF_VARIANT": v, "VERIF_FILE": f, "VERIF_SLICE": 0, "VERIF_SLICES": 2})
+                 [("ep-%s-%d" % (v, f), "Families_pos.cfg", {"VERIF_FAMILY": "ep", "VERIF_VARIANT": v, "VERIF_FILE": f, "VERIF_SLICE": (ctx.seed + 3 + f) % 8, "VERIF_SLICES": 8})
                   for v in "rq" for f in range(8)])
     # check evasion / pins / double checks in the king's neighbourhood (1152 slices; thorough takes 24 of them)
     ev = [(ctx.seed * 131 + 577 + i * 48) % 1152 for i in range(1 if ctx.tier == "quick" else 24)]
